@@ -205,6 +205,9 @@ def gen_sprite(rng: random.Random, *, max_canvas=10, max_layers=6, max_frames=4,
                 c["kind"] = "tilemap"
                 c["w"], c["h"] = rng.randint(1, 4), rng.randint(1, 4)
                 c["tiles"] = [rng.randrange(ts["count"]) for _ in range(c["w"] * c["h"])]
+                # the flip / rotate bits of the tile words (masks as Aseprite writes them): the library reads the id through the id mask
+                # and draws the tile untransformed; whatever it does with the other bits, it must not fail on them
+                c["tile_bits"] = [rng.choice([0, 0, 0x20000000, 0x40000000, 0x80000000, 0xE0000000, 0xA0000000]) for _ in c["tiles"]] if rng.random() < 0.4 else None
                 ox = rng.choice([0, 0, 1, -1, 2, -3, 40]) * ts["tw"]
                 oy = rng.choice([0, 0, 1, -1, 2, -2, 40]) * ts["th"]
                 c["x"], c["y"] = max(-32768, min(32767, ox)), max(-32768, min(32767, oy))
@@ -316,7 +319,8 @@ def build(s: dict, ch: Optional[dict] = None, rng: Optional[random.Random] = Non
                 cc = ase.CelChunk(layer=l, x=c["x"], y=c["y"], opacity=c["opacity"], ctype_cel=1, linked=c["frame"], reserved=junk(7))
             elif c["kind"] == "tilemap":
                 cc = ase.CelChunk(layer=l, x=c["x"], y=c["y"], opacity=c["opacity"], ctype_cel=3, w=c["w"], h=c["h"],
-                                  tiles=list(c["tiles"]), zlevel=zl(), reserved=junk(7), tm_reserved=junk(10))
+                                  tiles=[t | b for t, b in zip(c["tiles"], c.get("tile_bits") or [0] * len(c["tiles"]))],
+                                  zlevel=zl(), reserved=junk(7), tm_reserved=junk(10))
             else:
                 storage = ch["cel_storage"] or c["kind"]
                 cc = ase.CelChunk(layer=l, x=c["x"], y=c["y"], opacity=c["opacity"], ctype_cel=0 if storage == "raw" else 2,
